@@ -86,32 +86,29 @@ theorem C20_policy_one_vs_many_distinct (s : Bytes) (ms : List (Bytes × Json)) 
 theorem C20_policy_encoder_one_vs_many (p : Policy) : valueShape p (toJson p) = true :=
   valueShape_toJson p
 
-/-- full statement of the refusal clause. FALSE of the model and of the code: see
-    `S3V.C20.C20_policy_outside_grammar_refused_full_false`. -/
-def C20_policy_outside_grammar_refused_full : Prop :=
-  ∀ j : Json, inGrammar j = false → fromJson j = .error .refused
-
-/-- "JSON that is outside the IAM policy grammar is refused" — for every document outside the one
-    region of the decidable predicate `quirk` (a `Version`/`Effect` is written `{"<name>": null}`). In
-    particular a document that is not an object (an array of the three fields included), a statement
-    with two principal, two action or two resource blocks and a statement whose principal block has a
-    malformed value are refused (these were three further excluded regions until the readers of
-    `Statement` and of `Policy` were repaired). -/
-theorem C20_policy_outside_grammar_refused_partial (j : Json) (hq : quirk j = false)
-    (hg : inGrammar j = false) : fromJson j = .error .refused := by
+/-- "JSON that is outside the IAM policy grammar is refused" — for every JSON value, no region excluded.
+    In particular a document that is not an object (an array of the three fields included), a
+    `Version`/`Effect` written `{"<name>": null}`, a statement with two principal, two action or two
+    resource blocks and a statement whose principal block has a malformed value are refused (these were
+    four excluded regions of a `…_partial` theorem until the readers of `Statement`, of `Policy` and of
+    `Version`/`Effect` were repaired). -/
+theorem C20_policy_outside_grammar_refused (j : Json) (hg : inGrammar j = false) :
+    fromJson j = .error .refused := by
   cases h : fromJson? j with
   | none => simp [fromJson, h]
   | some p =>
-    have := violation_mono j (grammar_of_fromJson? j p h hq)
+    have := violation_mono j (grammar_of_fromJson? j p h)
     simp [inGrammar, this] at hg
 
-/-- outside the `quirk` regions the documents accepted are exactly those of the grammar with string
-    condition values -/
-theorem C20_policy_accept_iff_partial (j : Json) (hq : quirk j = false) :
-    (∃ p, fromJson j = .ok p) ↔ inStringGrammar j = true := by
+/-- the same as one proposition (it was stated as a `def` while it was false of the code) -/
+def C20_policy_outside_grammar_refused_full : Prop :=
+  ∀ j : Json, inGrammar j = false → fromJson j = .error .refused
+
+/-- the documents accepted are exactly those of the grammar with string condition values -/
+theorem C20_policy_accept_iff (j : Json) : (∃ p, fromJson j = .ok p) ↔ inStringGrammar j = true := by
   constructor
   · rintro ⟨p, hp⟩
-    simp [inStringGrammar, grammar_of_fromJson? j p ((fromJson_ok_iff j p).mp hp) hq]
+    simp [inStringGrammar, grammar_of_fromJson? j p ((fromJson_ok_iff j p).mp hp)]
   · intro hg
     obtain ⟨p, hp, _⟩ := C20_policy_json_stable j hg
     exact ⟨p, hp⟩
@@ -134,7 +131,7 @@ theorem C20_policy_string_grammar_in_grammar (j : Json) (h : inStringGrammar j =
     refused as soon as (`headMust`) it is not an object, a `Version` is neither null nor a known version, an `Id` is neither
     null nor a string, or `Statement` is missing; or (`stmtMust`) something standing where a statement
     belongs is not an object, has a `Sid` that is neither string nor null, has no `Effect` or an
-    `Effect` other than `Allow`/`Deny`, has no action (resource) block, more than one (under either
+    `Effect` other than the strings `Allow`/`Deny`, has no action (resource) block, more than one (under either
     name), or one that is not a string or a list of strings (a number, an object, null, a list
     containing a non-string), has more than one principal block or one whose value is neither `"*"` nor
     a map of strings / string lists, or has a `Condition` that is not a map of maps of strings / string
@@ -149,6 +146,34 @@ theorem C20_policy_stated_shapes_refused (j : Json)
     rcases h with h | ⟨x, hx, hm⟩
     · rw [h1] at h; cases h
     · rw [h2 x hx] at hm; cases hm
+
+/-- "wrong shapes": a `Version` or an `Effect` written as the one-member object `{"<name>": null}` (the
+    form serde_json's `deserialize_enum` takes for a unit-variant enum, accepted until the readers of
+    `Version` and `Effect` were repaired) makes the document refused, whatever name the object carries
+    and whatever else the document contains -/
+theorem C20_policy_enum_object_form_refused (j : Json)
+    (h : (∃ ms, j = .obj ms ∧ ∃ v ∈ valuesOf kVersion ms, enumObjectForm v = true) ∨
+         ∃ x ∈ statementNodes j, ∃ ms, x = .obj ms ∧ ∃ v ∈ valuesOf kEffect ms, enumObjectForm v = true) :
+    fromJson j = .error .refused := by
+  apply C20_policy_stated_shapes_refused
+  rcases h with ⟨ms, rfl, v, hv, he⟩ | ⟨x, hx, ms, rfl, v, hv, he⟩
+  · left
+    cases hh : headMust (.obj ms) with
+    | false => rfl
+    | true =>
+      simp only [headMust, Bool.and_eq_true, List.all_eq_true] at hh
+      have := hh.1.1.2 v hv
+      rw [enumObjectForm_version v he] at this
+      cases this
+  · right
+    refine ⟨_, hx, ?_⟩
+    cases hh : stmtMust (.obj ms) with
+    | false => rfl
+    | true =>
+      simp only [stmtMust, Bool.and_eq_true, List.all_eq_true] at hh
+      have := hh.1.1.1.1.1.1.1.2 v hv
+      rw [enumObjectForm_effect v he] at this
+      cases this
 
 /-! ## non-vacuity -/
 
@@ -166,7 +191,7 @@ example : Ex.policyA.mapsWf ∧ Ex.policyA.hasOneStar = false := by
     · cases hc
 /-- … and `example2_json` of the crate's tests is in the grammar, is read as the expected value and
     written back as its `canon` -/
-example : inStringGrammar Ex.doc2 = true ∧ mapNamesUnique Ex.doc2 = true ∧ quirk Ex.doc2 = false ∧
+example : inStringGrammar Ex.doc2 = true ∧ mapNamesUnique Ex.doc2 = true ∧
     fromJson? Ex.doc2 = some (Ex.policy2 (some .v2012_10_17)) := by decide
 /-- one-element list, other member order, foreign member: accepted, list kept a list -/
 example : inStringGrammar Ex.doc2List = true ∧
@@ -177,13 +202,24 @@ example : inStringGrammar Ex.doc2List = true ∧
 example : ∀ j ∈ [Ex.docUnknownEffect, Ex.docUnknownVersion, Ex.docNumberAction, Ex.docObjectEffect, Ex.docNoAction,
       Ex.docTwoSids, Ex.docBothActions, Ex.docNotActionThenAction, Ex.docResourceTwice, Ex.docBothPrincipals,
       Ex.docNumberPrincipal, Ex.docStringPrincipal, Ex.docNullPrincipal, Ex.docArrayForm, Ex.docArrayFormList,
-      Ex.docArrayFormShort, Ex.docArrayFormLong],
-    quirk j = false ∧ inGrammar j = false ∧ fromJson? j = none := by decide
+      Ex.docArrayFormShort, Ex.docArrayFormLong, Ex.docEffectObjectForm, Ex.docVersionObjectForm,
+      Ex.docEffectObjectFormInList, Ex.docBothObjectForms],
+    inGrammar j = false ∧ fromJson? j = none := by decide
 example : ∀ j ∈ [Ex.docUnknownEffect, Ex.docNumberAction, Ex.docObjectEffect, Ex.docNoAction, Ex.docTwoSids,
       Ex.docBothActions, Ex.docNotActionThenAction, Ex.docResourceTwice, Ex.docBothPrincipals,
       Ex.docNumberPrincipal, Ex.docStringPrincipal, Ex.docNullPrincipal],
     ∃ x ∈ statementNodes j, stmtMust x = false := by decide
 example : headMust Ex.docUnknownVersion = false ∧ headMust Ex.docArrayForm = false := by decide
 example : ∀ ms, Ex.docArrayForm ≠ .obj ms := fun _ h => nomatch h
+/-- the hypothesis of `C20_policy_enum_object_form_refused`, both disjuncts -/
+example : (∃ v ∈ valuesOf kVersion [(kVersion, .obj [(n2012, .null)]), (kStatement, Ex.stmtWith (.str nAllow) [])],
+      enumObjectForm v = true) ∧
+    (∃ x ∈ statementNodes Ex.docEffectObjectFormInList, ∃ ms, x = .obj ms ∧
+      ∃ v ∈ valuesOf kEffect ms, enumObjectForm v = true) := by
+  refine ⟨⟨.obj [(n2012, .null)], ?_, rfl⟩, ⟨Ex.stmtWith (.obj [(nDeny, .null)]) [], ?_, _, rfl,
+    .obj [(nDeny, .null)], ?_, rfl⟩⟩
+  · simp (config := { decide := true }) [valuesOf]
+  · simp (config := { decide := true }) [statementNodes, Ex.docEffectObjectFormInList, valuesOf, stmtItems]
+  · simp (config := { decide := true }) [valuesOf]
 
 end S3V.C20
